@@ -10,6 +10,7 @@ use std::sync::{Arc, Mutex};
 
 pub fn swarm() -> Swarm {
     Swarm {
+        alloc_modes: true,
         stalls: true,
         stall_max_ns: 3_000_000,
         est_len: 1500,
